@@ -9,6 +9,7 @@
 -/
 import ProphyModel.Spec
 import ProphyModel.Lemmas.Render
+import ProphyModel.Lemmas.PyEncode
 namespace Prophy.C19
 open Prophy Prophy.Spec
 
@@ -94,6 +95,20 @@ theorem C19_padding_zero (t : Ty) (v : Val) (e : Endian) :
     | raw b =>
       simp only [render, Chunk.render, padsZero]
       rw [List.drop_left' rfl]; exact ih
+
+/-- transported to the Python runtime (through C01): what `encode('>')` returns is what
+    `encode('<')` returns with every scalar reversed in place, of the same length, and every
+    padding byte of both is zero -/
+theorem C19_py_encode (t : Ty) (v : Val) (bl bb : Bytes)
+    (hw : WF.wfTy t = true) (hv : hasType t v = true) (ha : WF.agreeTy t v = true)
+    (hl : Py.encode t v .little = .ok bl) (hb : Py.encode t v .big = .ok bb) :
+    bb = mirror (chunksTy t v) bl ∧ bl = mirror (chunksTy t v) bb ∧ bb.length = bl.length ∧
+    padsZero (chunksTy t v) bl ∧ padsZero (chunksTy t v) bb := by
+  rw [Py.encode_canonical t v .little hw hv ha] at hl
+  rw [Py.encode_canonical t v .big hw hv ha] at hb
+  injection hl with hl; injection hb with hb
+  subst hl; subst hb
+  exact ⟨C19_mirror t v, C19_mirror_back t v, C19_same_length t v, C19_padding_zero t v .little, C19_padding_zero t v .big⟩
 
 /-- non-vacuity / documentation: encoding.rst "Integer padding" in both orders -/
 def exT : Ty := .struct "X" [.mk "a" (.prim .u8) .plain, .mk "b" (.prim .u16) .plain]
